@@ -1116,3 +1116,11 @@ _FSN = (IP + "namespace.py", "        ns = find_sub_namespace(found_namespace, s
 _FSN2 = (IP + "namespace.py", "        ns = find_sub_namespace(found_namespace, str_namespaces[1:])\n", "        ns = find_sub_namespace(found_namespace, str_namespaces[2:])\n")
 TABLE["C08"] += [B("namespace-path-lookup-stops-at-the-first-block", {"N2"}, _FSN), B("namespace-path-lookup-skips-a-component", {"N2"}, _FSN2)]
 TABLE["C07"] += [B("namespace-path-lookup-stops-at-the-first-block", {"V6"}, _FSN), B("namespace-path-lookup-skips-a-component", {"V6"}, _FSN2)]
+TABLE["C07"] += [
+    B("arity-assertion-compares-the-template-with-itself", {"V6"},
+      (TI + "classes.py", "            assert len(original.template.typenames) == len(\n                instantiations), \"Typenames and instantiations mismatch!\"",
+       "            assert len(original.template.typenames) == len(\n                original.template.instantiations), \"Typenames and instantiations mismatch!\"")),
+    N("arity-assertion-on-hoisted-locals",
+      (TI + "classes.py", "        if original.template:\n            assert len(original.template.typenames) == len(\n                instantiations), \"Typenames and instantiations mismatch!\"",
+       "        template = original.template\n        names = template.typenames if template else []\n        if template:\n            assert len(names) == len(\n                instantiations), \"Typenames and instantiations mismatch!\"")),
+]
